@@ -576,25 +576,32 @@ pub(crate) async fn run_actor_lifecycle<T: Actor>(
                         debug!("Actor {} processed message in {:?}", actor_id, start_time.elapsed());
                     }
                     Some(MailboxMessage::StopGracefully(_)) | None => {
+                        // The branches of the select are polled one after the other: a kill() that
+                        // arrived after the control channel was polled in this pass still wins over
+                        // the stop marker / the closed mailbox found just now.
+                        if terminate_receiver.try_recv().is_ok() {
+                            killed = true;
+                        }
+
                         #[cfg(feature = "tracing")]
                         debug!("Actor termination due to graceful stop");
 
                         // Call on_stop for graceful stop scenario
                         #[cfg(feature = "tracing")]
-                        let on_stop_span = tracing::debug_span!("actor_on_stop", killed = false);
+                        let on_stop_span = tracing::debug_span!("actor_on_stop", killed);
                         #[cfg(not(feature = "tracing"))]
                         let on_stop_span = tracing::Span::none();
 
                         if let Err(e) = run_with_actor_scope!(
                             actor_id,
-                            actor.on_stop(&actor_weak, false).instrument(on_stop_span)
+                            actor.on_stop(&actor_weak, killed).instrument(on_stop_span)
                         ) {
                             error!("Actor {actor_id} on_stop failed during graceful stop: {e:?}");
                             return ActorResult::Failed {
                                 actor: Some(actor),
                                 error: e,
                                 phase: FailurePhase::OnStop,
-                                killed: false,
+                                killed,
                             };
                         }
 
